@@ -160,3 +160,50 @@ func VC_C12_lookup_continues() {
 	verifAssert(b.PkgName() == cur, "C12.pkg.only-next-lookup")
 	verifReached("C12.lookup")
 }
+
+type vC12LI interface{ Get() int }
+
+var vC12LIv vC12LI
+var vC12LVar int
+
+type vC12LT struct{ n int }
+
+func (t *vC12LT) M() int { return t.n }
+
+// VC_C12_pkg_consumed: a Pkg override is consumed by the next lookup of any kind - the
+// first lookup of a target as well as a repeated one that finds the live mocker - so a
+// later by-name lookup without Pkg resolves in the current package again.
+func VC_C12_pkg_consumed() {
+	vEnv()
+	vPristine(vTargetFn)
+	b := Create()
+	cur := b.PkgName()
+	kind := verifChoice("kind", 6)
+	repeated := verifBool("repeated")
+	look := func() {
+		switch kind {
+		case 0:
+			b.Func(vTargetFn)
+		case 1:
+			b.Struct(&vC12LT{})
+		case 2:
+			b.Interface(&vC12LIv)
+		case 3:
+			b.ExportFunc("someFunc")
+		case 4:
+			b.ExportStruct("*someStruct")
+		case 5:
+			b.Var(&vC12LVar)
+		}
+	}
+	if repeated {
+		look() // the target already has a live mocker in this builder
+		verifAssert(b.PkgName() == cur, "C12.pkg-consumed.no-override-no-change")
+	}
+	b.Pkg("some/other/pkg")
+	look()
+	verifAssert(b.PkgName() == cur, "C12.pkg-consumed.only-next-lookup")
+	u := b.ExportFunc("laterFunc")
+	verifAssert(u.pkgName == cur, "C12.pkg-consumed.later-lookup-uses-current-package")
+	verifReached("C12.pkg-consumed")
+}
